@@ -18,6 +18,9 @@ type nspec struct {
 	ExtraProps []string    // additional properties of def0
 	ExtraOps   [][3]string // additional operations: method, path, operationId ("" = none)
 	ExtraQuery []string    // additional query parameters of op0
+	// additional operations in a tag of their own, with an inline (anonymous) body schema and inline response schemas:
+	// method, path, operationId, tag
+	ExtraTagged [][4]string
 	NoIDs      bool        // base operations without operationId
 }
 
@@ -160,6 +163,19 @@ func (sp *nspec) JSON() M {
 		pi[strings.ToLower(eo[0])] = o
 		paths[eo[1]] = pi
 	}
+	for i, eo := range sp.ExtraTagged {
+		o := M{"operationId": eo[2], "tags": []string{eo[3]},
+			"parameters": []interface{}{M{"name": "body", "in": "body", "required": true, "schema": M{"type": "object", "required": []string{"query"},
+				"properties": M{"query": M{"type": "string"}, "page": M{"type": "integer", "format": "int32", "minimum": i}}}}},
+			"responses": M{"200": M{"description": "found " + string(rune('a'+i)), "schema": M{"type": "object", "properties": M{"hits": M{"type": "array", "items": M{"type": "string"}}, "total": M{"type": "integer"}}}},
+				"default": M{"description": "error", "schema": M{"type": "object", "properties": M{"message": M{"type": "string"}}}}}}
+		pi, _ := paths[eo[1]].(M)
+		if pi == nil {
+			pi = M{}
+		}
+		pi[strings.ToLower(eo[0])] = o
+		paths[eo[1]] = pi
+	}
 	return M{
 		"swagger": "2.0", "info": M{"title": "names", "version": "1.0"}, "basePath": "/api",
 		"consumes": []string{"application/json"}, "produces": []string{"application/json"}, "schemes": []string{"http"},
@@ -173,6 +189,9 @@ func (sp *nspec) JSON() M {
 func (sp *nspec) ops() [][2]string {
 	out := [][2]string{{"GET", "/gadgets/{" + sp.n("pp") + "}"}, {"POST", "/gadgets"}, {"PUT", "/widgets"}}
 	for _, eo := range sp.ExtraOps {
+		out = append(out, [2]string{strings.ToUpper(eo[0]), eo[1]})
+	}
+	for _, eo := range sp.ExtraTagged {
 		out = append(out, [2]string{strings.ToUpper(eo[0]), eo[1]})
 	}
 	return out
@@ -217,9 +236,23 @@ func (sp *nspec) opsWithIDs() [][3]string {
 	for _, eo := range sp.ExtraOps {
 		out = append(out, [3]string{strings.ToUpper(eo[0]), eo[1], eo[2]})
 	}
+	for _, eo := range sp.ExtraTagged {
+		out = append(out, [3]string{strings.ToUpper(eo[0]), eo[1], eo[2]})
+	}
 	return out
 }
 
 func (sp *nspec) props0() []string {
 	return append([]string{sp.n("prop0"), sp.n("prop1"), sp.n("prop2"), sp.n("prop3")}, sp.ExtraProps...)
+}
+
+// opPackages: method, path and package of every operation that carries a tag (the generator puts an operation into the package of
+// its first tag; tags are compared as the generator mangles them into package names: case-insensitively after pascalize)
+func (sp *nspec) opPackages() [][3]string {
+	pkg := func(tag string) string { return strings.ToLower(pascalize(tag)) }
+	out := [][3]string{{"GET", "/gadgets/{" + sp.n("pp") + "}", pkg(sp.n("tag0"))}, {"POST", "/gadgets", pkg(sp.n("tag0"))}, {"PUT", "/widgets", pkg(sp.n("tag1"))}}
+	for _, eo := range sp.ExtraTagged {
+		out = append(out, [3]string{strings.ToUpper(eo[0]), eo[1], pkg(eo[3])})
+	}
+	return out
 }
